@@ -231,4 +231,179 @@ theorem moving_average_wide_old_counterexample :
 
 example : symmetricMovingAverage [1, 2, 6] 1 = [3/2, 3, 4] := by decide +kernel
 
+/-! ## sum_waveform + store_downsampled_waveform: the summed waveform integrates to the area -/
+
+/-- decidable hypothesis of the partial theorem: down-sampling loses nothing — the factor divides the length,
+or the samples behind the last full group are all zero -/
+def NoTailLoss (p : Peak) (buf : List Rat) : Prop :=
+  downsampleFactor p.length.toNat p.data.length ∣ p.length.toNat ∨ (droppedTail p buf).all (· = 0) = true
+
+instance (p : Peak) (buf : List Rat) : Decidable (NoTailLoss p buf) := by unfold NoTailLoss; infer_instance
+
+/-- **sum_conserves_area** in the form that IS true of the code for all inputs: for every peak summed by
+`sum_waveform` (`sumOnePeak`; `buf` = its full-resolution waveform)
+`Σ buf = area = Σ area_per_channel`, and `Σ data[:length] + Σ (samples dropped by down-sampling) = area`. -/
+theorem sum_conserves_area (dt : Int) (toPe : List Rat) (nCh : Nat) (p q : Peak) (hits : List Hit) (buf : List Rat)
+    (hn : 0 < p.data.length) (hch : ∀ x ∈ hits, x.channel < nCh)
+    (h : sumOnePeak dt toPe nCh p hits = .ok (q, buf)) :
+    buf.sum = q.area ∧ q.apc.sum = q.area ∧ q.wave.sum + (droppedTail p buf).sum = q.area := by
+  obtain ⟨h1, h2, h3⟩ := sumOnePeak_conserves dt toPe nCh p q hits buf hn h
+  exact ⟨h1, h3 hch, h2⟩
+
+/-- **sum_conserves_area_partial.** FULL statement wanted by the property:
+`∀ …, sumOnePeak … = ok (q, buf) → q.wave.sum = q.area` ("also after down-sampling") — FALSE for the code as
+it is (`downsample_counterexample`, defect D11). Proved part: it holds whenever the down-sampling factor
+divides the length or the dropped tail is zero (`NoTailLoss`). Missing: nothing else — the gap is exactly D11. -/
+theorem sum_conserves_area_partial (dt : Int) (toPe : List Rat) (nCh : Nat) (p q : Peak) (hits : List Hit) (buf : List Rat)
+    (hn : 0 < p.data.length) (hch : ∀ x ∈ hits, x.channel < nCh) (ht : NoTailLoss p buf)
+    (h : sumOnePeak dt toPe nCh p hits = .ok (q, buf)) :
+    q.wave.sum = q.area ∧ q.apc.sum = q.area := by
+  obtain ⟨_, h2, h3⟩ := sum_conserves_area dt toPe nCh p q hits buf hn hch h
+  refine ⟨?_, h2⟩
+  have hz : (droppedTail p buf).sum = 0 := by
+    rcases ht with hd | hz
+    · rw [droppedTail_nil_of_dvd p buf hd]; rfl
+    · exact sum_zero_of_all_zero _ hz
+  rw [hz, Rat.add_zero] at h3
+  exact h3
+
+/-- every peak returned by `sum_waveform` went through `sumOnePeak` over a suffix of the hits — or the hits
+were exhausted and the peak was left alone (possibly with its area reset; documented corner of the code) -/
+theorem sum_waveform_peaks (dt : Int) (toPe : List Rat) (nCh : Nat) (peaks out : List Peak) (hits : List Hit)
+    (h : sumWaveform dt toPe nCh peaks hits = .ok out) :
+    AllPairs (fun p q =>
+      (∃ hits' buf, sumOnePeak dt toPe nCh p hits' = .ok (q, buf) ∧ ∀ x ∈ hits', x ∈ hits) ∨ q = p ∨ q = { p with area := 0 })
+      peaks out := by
+  unfold sumWaveform at h
+  by_cases he : peaks.isEmpty
+  · have : peaks = [] := by simpa using he
+    subst this
+    simp at h; subst h; trivial
+  · simp only [he, if_false, Bool.false_eq_true] at h
+    exact sumLoop_forall dt toPe nCh peaks hits out h
+
+/-- **downsample_counterexample** (D11): a peak of 5 samples, 4-sample buffer, one hit of 7 in the last sample:
+`sum_waveform` returns area 7 and an all-zero waveform of 2 samples. -/
+theorem downsample_counterexample :
+    ∃ (p q : Peak) (hits : List Hit) (buf : List Rat),
+      (sumOnePeak 1 [1, 1] 2 p hits).toOption = some (q, buf) ∧ q.area = 7 ∧ q.wave.sum = 0 ∧ ¬ NoTailLoss p buf :=
+  ⟨⟨0, 5, 1, 0, [0, 0], 0, 0, [0, 0, 0, 0]⟩, ⟨0, 2, 2, 7, [7, 0], 0, 0, [0, 0, 0, 0]⟩,
+   [⟨4, 1, 1, 0, 7, [7]⟩], [0, 0, 0, 0, 7], by decide +kernel, by decide +kernel, by decide +kernel, by decide +kernel⟩
+
+/-! non-vacuity of `NoTailLoss`: six samples into a four-sample buffer (factor 2 divides 6) -/
+example : (sumOnePeak 1 [1, 2] 2 ⟨0, 6, 1, 0, [0, 0], 0, 0, [0, 0, 0, 0]⟩ [⟨1, 2, 1, 0, 5, [2, 3]⟩, ⟨4, 2, 1, 1, 2, [1, 1]⟩]).toOption
+    = some (⟨0, 3, 2, 9, [5, 4], 0, 0, [2, 3, 4, 0]⟩, [0, 2, 3, 0, 2, 2]) := by decide +kernel
+example : NoTailLoss ⟨0, 6, 1, 0, [0, 0], 0, 0, [0, 0, 0, 0]⟩ [0, 2, 3, 0, 2, 2] := by decide +kernel
+
+/-! ## merge_peaks -/
+
+/-- **merge_adds_and_spans** (all inputs): the merged peak starts at the first constituent, the collected end
+time is the end of the last one, area / hit count / per-channel areas are the sums over the constituents, and
+the stored `dt * length` never reaches beyond the last end. -/
+theorem merge_adds_and_spans (nCh nS : Nat) (old : List Peak) (q : Peak) (e : Int)
+    (h : mergeOne nCh nS old = .ok (q, e)) :
+    ∃ first last, old.head? = some first ∧ old.getLast? = some last ∧
+      q.time = first.time ∧ e = last.endt ∧
+      q.area = (old.map (·.area)).sum ∧ q.nHits = (old.map (·.nHits)).sum ∧
+      ((∀ p ∈ old, p.apc.length = nCh) → ∀ k, q.apc.getD k 0 = (old.map (·.apc.getD k 0)).sum) ∧
+      ((∀ p ∈ old, 0 ≤ p.dt) → 0 < q.dt ∧ q.time + q.dt * q.length ≤ e) :=
+  mergeOne_spec nCh nS old q e h
+
+example : (mergeOne 2 4 [⟨0, 3, 1, 6, [1, 5], 1, 0, [1, 2, 3, 0]⟩, ⟨4, 2, 2, 12, [2, 10], 2, 0, [4, 8, 0, 0]⟩]).toOption
+    = some (⟨0, 4, 2, 18, [3, 15], 3, -1, [3, 3, 4, 8]⟩, 8) := by decide +kernel
+
+/-! ## replace_merged -/
+
+/-- **replace_merged_spec.** If `replace_merged` returns, then either nothing was to be merged and the array is
+returned as it is, or — for skip windows that are non-empty, in order and non-overlapping (`WindowsOk`,
+what `touching_windows` yields for disjoint merged peaks each covering at least one original) — the result is
+`orig[0:s0] ++ [m0] ++ orig[e0:s1] ++ [m1] ++ … ++ orig[e_last:]`: every original row outside the windows is
+kept untouched, in its place and order, and every window is replaced by its merged row. -/
+theorem replace_merged_spec (orig merge res : List Row) (h : replaceMerged orig merge = .ok res) :
+    (merge = [] ∧ res = orig) ∨
+    ∃ windows, touchingWindows orig merge = .ok windows ∧
+      (WindowsOk orig.length 0 (merge.zip windows) → res = replaceSpec orig 0 (merge.zip windows)) := by
+  unfold replaceMerged at h
+  by_cases he : merge.isEmpty
+  · left
+    simp only [he, if_true, Except.ok.injEq] at h
+    exact ⟨by simpa using he, h.symm⟩
+  · right
+    simp only [he, if_false, Bool.false_eq_true] at h
+    split at h
+    · simp at h
+    · rename_i windows hw
+      exact ⟨windows, hw, fun hok => replaceMergedCore_spec orig merge windows res hok h⟩
+
+example : (replaceMerged [⟨0, 2, 0⟩, ⟨3, 5, 1⟩, ⟨5, 6, 2⟩, ⟨9, 10, 3⟩] [⟨3, 6, 100⟩]).toOption
+    = some [⟨0, 2, 0⟩, ⟨3, 6, 100⟩, ⟨9, 10, 3⟩] := by decide +kernel
+example : WindowsOk 4 0 ([(⟨3, 6, 100⟩ : Row)].zip [(1, 3)]) := by simp [WindowsOk]
+
+/-! ## index_of_fraction -/
+
+/-- **index_of_fraction_spec.** For a positive total area and ascending fractions the result of
+`compute_index_of_fraction` is, fraction by fraction, the defining `reachIndex` (first crossing of the
+cumulated area through `f·A`, linearly interpolated — `reach_index_is_first_crossing`); fractions that are never
+reached stay 0; and, as in the code, the last slot is set to `length` when the fraction still open at the end
+of the waveform (or, if none is open, the last fraction) equals 1. -/
+theorem index_of_fraction_spec (wave : List Rat) (length : Int) (A : Rat) (fs : List Rat)
+    (hA : 0 < A) (hs : fs.Pairwise (· ≤ ·)) :
+    computeIndexOfFraction wave length A fs =
+      (let reached := fs.filterMap (fun f => reachIndex A f wave 0 0)
+       let open_ := fs.filter (fun f => (reachIndex A f wave 0 0).isNone)
+       let res := reached ++ open_.map (fun _ => (0 : Rat))
+       let needed := match open_ with
+         | f :: _ => some f
+         | [] => fs.getLast?
+       if needed = some 1 then setLast res (length : Rat) else res) := by
+  obtain ⟨h1, h2⟩ := iofLoop_spec A hA wave 0 0 fs hs
+  unfold computeIndexOfFraction
+  generalize iofLoop A wave 0 0 fs = r at h1 h2
+  obtain ⟨rs, rem⟩ := r
+  simp only [Rat.zero_mul] at h1 h2
+  simp only [] at h1 h2 ⊢
+  rw [h1, h2]
+  rfl
+
+/-- the defining property of `reachIndex` -/
+theorem reach_index_is_first_crossing (A f : Rat) (xs : List Rat) (r : Rat) (h : reachIndex A f xs 0 0 = some r) :
+    ∃ k, k < xs.length ∧ (∀ j < k, (xs.take (j+1)).sum < f * A) ∧ (xs.take (k+1)).sum ≥ f * A ∧
+      (xs.getD k 0 ≠ 0 → (r - (k : Rat)) * xs.getD k 0 = f * A - (xs.take k).sum) ∧
+      (xs.getD k 0 = 0 → r = (k : Rat)) := by
+  obtain ⟨k, h1, h2, h3, h4, h5⟩ := reachIndex_spec A f xs 0 0 r h
+  refine ⟨k, h1, ?_, ?_, ?_, ?_⟩
+  · intro j hj; have := h2 j hj; rwa [Rat.zero_add] at this
+  · rwa [Rat.zero_add] at h3
+  · intro hx; have := h4 hx; simpa [Rat.zero_add] using this
+  · intro hx; have := h5 hx; simpa using this
+
+example : computeIndexOfFraction [1, 0, 3] 3 4 [1/4, 1/2, 1] = [1, 7/3, 3] := by decide +kernel
+
+/-! ## highest_density_region -/
+
+/-- **hdr_spec_partial.** FULL statement wanted: for every desired fraction `f` the reported intervals are the
+maximal runs of the SMALLEST level set `{i : data[i] > v}` (`v` a sample value) whose mass — above `v` when
+`only_upper_part` — is at least `f·Σdata`, and the amplitude is the interpolated height.
+Proved part (all inputs): one row per fraction; every row is the whole range `[0, n)` or stems from a selection
+`max_to_min[:j]`, `1 ≤ j < n` (`hdr_rows`), and for every such selection (`hdr_region`) the reported runs cover
+exactly the selected indices, are non-empty and maximal, no unselected sample is higher than a selected one
+and the selection together with the rest is a permutation of all indices.
+Missing: that `j` is the first level whose mass suffices, and the amplitude formula (both are checked by the
+oracle on the real code, amplitudes with tolerance 1e-5). -/
+theorem hdr_spec_partial (data fractions : List Rat) (upper : Bool) (bufSize : Nat) (rows : List (List (Int × Int) × Rat))
+    (h : highestDensityRegion data fractions upper bufSize = .ok rows) :
+    rows.length = fractions.length ∧
+    (∀ row ∈ rows, RowFromSelection data bufSize row ∨
+      row.1 = ((0 : Int), (data.length : Int)) :: List.replicate (bufSize - 1) ((0 : Int), (0 : Int))) ∧
+    (∀ j, let order := maxToMin data
+          let ind := sortNat (order.take j)
+          runIndices (runsOf ind) = ind ∧ RunsSeparated (runsOf ind) ∧ ind.Perm (order.take j) ∧
+          (∀ a ∈ order.take j, ∀ b ∈ order.drop j, data.getD b 0 ≤ data.getD a 0) ∧
+          (order.take j ++ order.drop j).Perm (List.range data.length)) :=
+  ⟨(hdr_rows data fractions upper bufSize rows h).1, (hdr_rows data fractions upper bufSize rows h).2,
+   fun j => hdr_region data j⟩
+
+example : ((highestDensityRegion [1, 2, 6, 3, 1] [1/2, 4/5] false 3).toOption.map (·.map (·.1)))
+    = some [[(2, 4), (0, 0), (0, 0)], [(1, 4), (0, 0), (0, 0)]] := by decide +kernel
+
 end Strax.C19
